@@ -54,7 +54,7 @@ def r1(ctx):
     t = ctx.body(R, "turmoil::host::Tcp::is_port_assigned")
     if t:
         fam = ctx.w.family(t.id)
-        keys = [tt for bb, tt in t.calls(re.compile(r"^indexmap::IndexMap::keys$"))]
+        keys = [tt for bb, tt in t.calls(re.compile(r"^indexmap::IndexMap::(keys|contains_key|get|iter)$"))]
         on_binds = any(_on_field(t, tt["args"][0], "turmoil::host::Tcp::binds") for tt in keys)
         on_socks = any(_on_field(t, tt["args"][0], "turmoil::host::Tcp::sockets") for tt in keys)
         ctx.inst(R, "tcp:reads-binds-and-streams", on_binds and on_socks, t.span, "scans listener binds and live streams" if on_binds and on_socks else
